@@ -93,3 +93,11 @@ Proof.
   destruct (main_tags_reachable e fuel cf d E s k Hb Hr) as [i [Hi Ht]].
   exists i. split; [exact Hi|]. intros t. rewrite Ht. apply (tag_law e s t).
 Qed.
+
+(* on the tagged-choice shape the general specification is the "tags of the matching
+   alternatives" reading (both characterise the tags reachable in build e) *)
+Lemma tex_tagalts (e : regex) : tagwf e = true ->
+  forall s t, tag_law_spec e s t <-> tag_spec e s t.
+Proof.
+  intros Hwf s t. rewrite <- (tag_law e s t). apply (tags_correct e Hwf s t).
+Qed.
